@@ -285,7 +285,7 @@ pub fn analyze_s<M: Mask>(info: &Info<M>, cfg: &RunCfg, res: &RunRes, out: &mut 
     // complete, exactly-once and in dependency order like any other
     for nr in &res.nested {
         f.nested_runs += 1;
-        let what = ["", "for_each_concurrent", "fold_async", "stream", "for_each_concurrent (functions yield twice)", "try_for_each_concurrent"][nr.kind.min(5) as usize];
+        let what = ["", "for_each_concurrent", "fold_async", "stream", "for_each_concurrent (functions pending for two polls)", "try_for_each_concurrent"][nr.kind.min(5) as usize];
         let mut nst = M::zero(n);
         let mut nen = M::zero(n);
         for &e in &nr.order {
